@@ -10,6 +10,7 @@ import (
 	"sort"
 	"strconv"
 	"strings"
+	"sync"
 	"time"
 )
 
@@ -141,6 +142,27 @@ func cmdCheck(args []string) int {
 		}
 	}
 	results := discharge(frs, timeout, true)
+	// An obligation that was not decided (timeout/unknown, e.g. on a loaded machine) gets one
+	// more attempt with a six-fold budget before it is reported; `sat` answers are final.
+	retried := 0
+	var rwg sync.WaitGroup
+	for _, r := range results {
+		if r.O.Cover || r.OK || r.R.Status == "sat" || r.Script == "" || retried >= 12 || g.knownOpen[stripOrdinal(r.O.Name)] {
+			continue
+		}
+		retried++
+		rwg.Add(1)
+		go func(r *OblResult) {
+			defer rwg.Done()
+			r2 := Solve(r.Script, 6*timeout, false)
+			if r2.Status == "unsat" || r2.Status == "sat" {
+				r2.Time += r.R.Time
+				r.R = r2
+				r.OK = r2.Status == "unsat"
+			}
+		}(r)
+	}
+	rwg.Wait()
 	kfs := loadKnownFindings(verifDir)
 	failedFns := map[string]bool{}
 	for _, r := range results {
